@@ -77,7 +77,8 @@ def generate(rng, tier):
             s2["props"] = {"ver": "2"}
             # an update follows the previous announcement burst (ends tdone + 0.45 s) by more than one second: the
             # cache-flush bit only retires records received more than 1 s ago (RFC 6762 10.2)
-            ops.append({"t": round(tdone + r2.choice([1.6, 2.0, 3.0, 8.0]) + r2.random(), 6), "op": "update", "h": h, "svc": s2})
+            ops.append({"t": round(tdone + r2.choice([0.1, 0.3, 1.6, 2.0, 3.0, 8.0]) + r2.random() * r2.choice([0.1, 1.0]), 6),
+                        "op": "update", "h": h, "svc": s2})
     nb = r2.choice([1, 2, 3, 4])
     for i in range(nb):
         h = r2.choice(hosts)
@@ -111,7 +112,7 @@ def generate(rng, tier):
         drop = [rng.randrange(0, 140), rng.choice([None, None] + hosts)]
     elif rng.random() < 0.8:
         drop = [rng.randrange(0, 120), rng.choice([None, None] + hosts)]
-    return {"ops": ops, "faults": faults, "drop": drop, "fixed": fixed, "hosts": hosts}
+    return {"timer_slop_us": rng.choice([0, 0, 1, 50, 300]), "ops": ops, "faults": faults, "drop": drop, "fixed": fixed, "hosts": hosts}
 
 
 def shrink_extra(sc):
@@ -123,7 +124,8 @@ def shrink_extra(sc):
 
 def execute(scenario, seed, overrides=None):
     out = runner.Outcome()
-    w = World(seed, FaultConfig(**scenario.get("faults", {})), overrides, step_cap=3_000_000)
+    w = World(seed, FaultConfig(**scenario.get("faults", {})), overrides, step_cap=3_000_000,
+              timer_slop=scenario.get("timer_slop_us", 0) / 1e6)
     stats = {"hosts": 0, "browsers_judged": 0, "instances_expected": 0, "lookups_judged": 0, "forced_drop_fired": 0,
              "crashes": 0, "closes": 0, "partitions": 0, "updates": 0, "unregisters": 0, "fixed_scenario": int(scenario.get("fixed", False))}
     try:
@@ -229,6 +231,30 @@ def _oracle(w, drv, sc, t_end, stats, out):
                 history[n][-1][1] = t
                 dontcare.add(n)
     stats["partitions"] = sum(1 for o in sc["ops"] if o["op"] == "partition")
+    # once an update has taken effect the owner no longer advertises the replaced version: a superseded SRV/TXT with a
+    # positive TTL sent afterwards keeps two generations alive in every cache on the link
+    from sim.svc import SvcRecords as _SRx
+
+    for n, hist in history.items():
+        for k in range(len(hist) - 1):
+            old_v, new_v = hist[k], hist[k + 1]
+            if old_v[1] is None or abs(new_v[0] - old_v[1]) > 1e-9:
+                continue
+            ro, rn = _SRx(old_v[2]), _SRx(new_v[2])
+            stale = {r.ident() for r in (ro.srv, ro.txt)} - {r.ident() for r in (rn.srv, rn.txt)}
+            if not stale:
+                continue
+            owner = reg_host(history, n)
+            for tx in w.net.trace:
+                if tx.host != owner or tx.t <= old_v[1] + 1e-9 or tx.msg is None or not tx.msg.is_response:
+                    continue
+                if new_v[1] is not None and tx.t >= new_v[1]:
+                    break
+                bad = [r for r in tx.msg.records() if r.ttl > 0 and r.ident() in stale]
+                if bad:
+                    out.add("C07.superseded-version-advertised", f"{n}: updated at {old_v[1] - t0:.3f} but {owner} sent the "
+                            f"replaced {bad[0]!r} at {tx.t - t0:.3f}")
+                    break
     # browsers
     for (hn, bid), lst in drv.listeners.items():
         host = w.hosts.get(hn)
